@@ -36,7 +36,9 @@ def check_diff(ctx, case):
         ctx.inconclusive += 1
         return
     na, nr = a["_rec_acc"].count, a["requestors"][0]["_rec"].count
-    plan = {"acceptor": sorted({int(f * na) for f in fr_acc}) if na else [], "requestor0": sorted({int(f * nr) for f in fr_req}) if nr else []}
+    shapes = case.get("shapes") or [0]
+    plan = {"acceptor": {int(f * na): shapes[i % len(shapes)] for i, f in enumerate(fr_acc)} if na else {},
+            "requestor0": {int(f * nr): shapes[(i + 3) % len(shapes)] for i, f in enumerate(fr_req)} if nr else {}}
     b = SC.run(sc, raise_plan=plan)
     kinds = set()
     for side, rec in (("acceptor", b["_rec_acc"]), ("requestor0", b["requestors"][0]["_rec"])):
@@ -87,6 +89,6 @@ def run(ctx):
         sc = dict(draw(pair))
         sc["schedule"] = {"policy": "fifo", "seed": 0, "preemptions": [], "nudges": []}
         fr = st.lists(st.floats(0, 0.999), min_size=0, max_size=6)
-        return {"scenario": sc, "raise_acc": draw(fr), "raise_req": draw(fr)}
+        return {"scenario": sc, "raise_acc": draw(fr), "raise_req": draw(fr), "shapes": draw(st.lists(st.integers(0, 7), min_size=1, max_size=6))}
 
     ctx.hyp("diff", case(), 60 if ctx.quick else 500)
